@@ -6,6 +6,7 @@ import (
 	"go.flow.arcalot.io/engine/internal/verifrt"
 	"go.flow.arcalot.io/engine/internal/yaml"
 	"go.flow.arcalot.io/expressions"
+	"go.flow.arcalot.io/pluginsdk/schema"
 )
 
 // redirect target for expressions.New: compiling an expression succeeds or fails (the expression
@@ -71,3 +72,50 @@ func VerifH_C11_build_expressions() {
 		}
 	}
 }
+
+// C11: FromYAML on every kind of document root (a map with or without the usual sections, a list, a scalar,
+// a tagged scalar) and on a parser error: a workflow or an error, never a crash.
+func VerifH_C11_from_yaml() {
+	var root yaml.Node
+	switch verifrt.Choice("root", 6) {
+	case 0:
+		root = yaml.VerifNode(yaml.TypeIDString, "", nil, "just text")
+	case 1:
+		root = yaml.VerifNode(yaml.TypeIDString, YamlExprTag, nil, "$.x")
+	case 2:
+		root = yaml.VerifNode(yaml.TypeIDSequence, "", []yaml.Node{yaml.VerifNode(yaml.TypeIDString, "", nil, "a")}, "")
+	case 3:
+		root = yaml.VerifNode(yaml.TypeIDSequence, "", nil, "")
+	case 4:
+		yaml.VerifParseFails = true
+	default:
+		// a map root with or without the usual sections (their values are plain or tagged scalars / maps)
+		var contents []yaml.Node
+		if verifrt.Choice("has-version", 2) == 1 {
+			contents = append(contents, yaml.VerifNode(yaml.TypeIDString, "", nil, "version"), verifYNode(0))
+		}
+		if verifrt.Choice("has-steps", 2) == 1 {
+			contents = append(contents, yaml.VerifNode(yaml.TypeIDString, "", nil, "steps"), yaml.VerifNode(yaml.TypeIDMap, "", nil, ""))
+		}
+		root = yaml.VerifNode(yaml.TypeIDMap, "", contents, "")
+	}
+	yaml.VerifParsed = root
+	wf, err := (yamlConverter{}).FromYAML([]byte("text"))
+	yaml.VerifParseFails = false
+	verifrt.Assert((wf == nil) != (err == nil), "FromYAML returns a workflow or an error")
+	if err != nil {
+		verifrt.Reach("error")
+	}
+}
+
+// redirect target for the typed unserialisation of the workflow document (the schema library's reflective
+// struct mapping is below the cut line): it accepts or rejects.
+func verifUnserializeWorkflow(s schema.TypedScopeSchema[*Workflow], data any) (*Workflow, error) {
+	if verifrt.Choice("document-matches-schema", 2) == 0 {
+		return nil, &verifrt.Err{Msg: "document does not match the workflow schema"}
+	}
+	return &Workflow{}, nil
+}
+
+// redirect target for GetSchema (building the workflow schema is reflective library code below the cut line)
+func verifGetSchema() *schema.TypedScopeSchema[*Workflow] { return &schema.TypedScopeSchema[*Workflow]{} }
